@@ -371,7 +371,7 @@ func (e *testEnv) serveCase(rs reqSpec, plan *faultPlan, tag string) (*respView,
 		{"basicgroups", hxl(o.HtpasswdUserGroups)}, {"json", bs(o.ForceJSONErrors)}, {"skipbutton", bs(o.SkipProviderButton)},
 		{"refresh", i64s(int64(o.Cookie.Refresh))}, {"expire", i64s(int64(o.Cookie.Expire))}, {"groups", hxl(cfg.AllowedGroups)},
 		{"pkce", hx(cfg.PKCE)}, {"skipnonce", bs(cfg.SkipNonce)}, {"encstate", bs(o.EncodeState)}, {"csrfper", bs(o.Cookie.CSRFPerRequest)},
-		{"cookiename", hx(o.Cookie.Name)}, {"redis", bs(cfg.Redis)}, {"secret", hx(o.Cookie.Secret)},
+		{"cookiename", hx(o.Cookie.Name)}, {"redis", bs(cfg.Redis)}, {"secret", hx(o.Cookie.Secret)}, {"whitelist", hxl(o.WhitelistDomains)},
 	}
 
 	// ---- env fields from the recording
@@ -484,6 +484,37 @@ func (e *testEnv) serveCase(rs reqSpec, plan *faultPlan, tag string) (*respView,
 	if i := strings.Index(toParse, ":"); i >= 0 {
 		appRd = toParse[i+1:]
 	}
+	// url.Parse oracle for every candidate the redirect strategy chain may look at
+	cand := map[string]bool{r2.Form.Get("rd"): true, req.Header.Get("X-Auth-Request-Redirect"): true, req.URL.RequestURI(): true, appRd: true,
+		req.Header.Get("X-Forwarded-Uri"): true}
+	{
+		proto, host, uri := req.URL.Scheme, req.Host, req.URL.RequestURI()
+		if o.ReverseProxy {
+			if x := req.Header.Get("X-Forwarded-Proto"); x != "" {
+				proto = x
+			}
+			if x := req.Header.Get("X-Forwarded-Host"); x != "" {
+				host = x
+			}
+			if x := req.Header.Get("X-Forwarded-Uri"); x != "" {
+				uri = x
+			}
+		}
+		cand[proto+"://"+host+uri] = true
+		cand[proto+"://"+host+"/"] = true
+	}
+	var parseTbl []string
+	for s := range cand {
+		if !strings.HasPrefix(s, "http://") && !strings.HasPrefix(s, "https://") {
+			continue
+		}
+		if pu, err := url.Parse(s); err == nil {
+			parseTbl = append(parseTbl, hx(s)+":1:"+hx(pu.Hostname())+":"+hx(pu.Port()))
+		} else {
+			parseTbl = append(parseTbl, hx(s)+":0")
+		}
+	}
+	sort.Strings(parseTbl)
 	// CSRF cookies presented
 	var csrfTbl []string
 	for _, ck := range req.Cookies() {
@@ -616,7 +647,7 @@ func (e *testEnv) serveCase(rs reqSpec, plan *faultPlan, tag string) (*respView,
 		{"redirect", hx(rdv)}, {"redirecterr", bs(rderr != nil)}, {"apprd", hx(appRd) + ":" + bs(e.proxy.redirectValidator.IsValidRedirect(appRd))},
 		{"stateparsed", hx(toParse)}, {"csrf", lst(csrfTbl)}, {"redeem", redeem}, {"enrichok", bs(enrichOK)}, {"fresh", fresh},
 		{"ready", bs(ready)}, {"htpasswd", lst(htTbl)}, {"oauthru", hx(e.proxy.getOAuthRedirectURI(scoped()))},
-		{"bearer", bearer}, {"basic", basic}, {"trusted", lst(trTbl)}, {"paths", lst(pathTbl)}, {"constraints", lst(conTbl)},
+		{"bearer", bearer}, {"basic", basic}, {"parsetbl", lst(parseTbl)}, {"trusted", lst(trTbl)}, {"paths", lst(pathTbl)}, {"constraints", lst(conTbl)},
 	}
 	_ = after
 	c.emit(real, "serve", encKVs(cfgF), encKVs(reqF), encKVs(envF), rx)
